@@ -15,7 +15,7 @@ from ..common.env import import_library, VERIF, HarnessError
 ID = "C06"
 KEEP_CPU_COUNT = True
 RULE = ("'schedules': case = (small labelled continuum, dissimilarity, sampler statistical | shuffle int | shuffle float, mode exact | fast | soft, n_samples, "
-        "precision None | float, NumPy seed) x schedule = (worker count 1..16, integer keys giving the order in which the submitted jobs are STARTED, per-job start "
+        "precision None | float, ground truth None or a subset given as list / set / frozenset / reversed list, NumPy seed) x schedule = (worker count 1..16, integer keys giving the order in which the submitted jobs are STARTED, per-job start "
         "delays 0-3 ms). The library's ThreadPoolExecutor is substituted test-side by a harness-owned executor (real Futures, real threads, jobs started in the "
         "generated order); further runs use the real pool with os.cpu_count patched to 1..16 workers, and a plain repetition in the same process. 'hashseed': the "
         "same batch of cases is evaluated in sub-processes with different PYTHONHASHSEED values. Oracle (relation between runs): observed disorder, the SEQUENCE of "
@@ -34,9 +34,14 @@ def run_gamma(case):
     k = case["sampler"]
     smp = pa.StatisticalContinuumSampler() if k == "statistical" else pa.ShuffleContinuumSampler(
         pivot_type="int_pivot" if k == "shuffle-int" else "float_pivot")
+    gt = case.get("ground_truth")
+    if gt is not None:
+        # the caller's container type is the caller's business: an (unordered) set must give the same results
+        gt = {"list": list, "set": set, "frozenset": frozenset, "reversed": lambda x: list(reversed(sorted(x)))}[case.get("gt_container", "list")](gt)
     np.random.seed(case["seed"])
     with fastguard.guard():
         g = c.compute_gamma(d, n_samples=case["n_samples"], precision_level=case["precision"], sampler=smp,
+                            ground_truth_annotators=gt,
                             fast=(case["mode"] == "fast"), soft=(case["mode"] == "soft"))
     out = {"observed": float(g.observed_disorder), "chance": [float(a.disorder) for a in g.chance_alignments], "gamma": float(g.gamma)}
     if spec["kind"] == "combined":
@@ -72,7 +77,8 @@ def check_schedules(case):
         ref = run_gamma(case)
     except Exception as e:
         raise Violation(f"compute_gamma:raises:{type(e).__name__}", repr(e))
-    classes = [f"mode={case['mode']}", f"sampler={case['sampler']}", "precision" if case["precision"] else "no-precision"]
+    classes = [f"mode={case['mode']}", f"sampler={case['sampler']}", "precision" if case["precision"] else "no-precision",
+               f"gt={case.get('gt_container') if case.get('ground_truth') else 'None'}"]
     nontrivial = False
     for i, s in enumerate(case["schedules"]):
         schedule = sched.Schedule(s["workers"], s["keys"], s["delays"])
@@ -122,7 +128,7 @@ def check_hashseed(case):
 
 @st.composite
 def gamma_cases(draw):
-    cs = draw(gen.continuum_and_spec(kinds=("combined", "combined", "combined", "pos", "precomputed"), min_ann=2, max_ann=3, budget=300, max_per=6,
+    cs = draw(gen.continuum_and_spec(kinds=("combined", "combined", "combined", "pos", "precomputed"), min_ann=2, max_ann=4, budget=400, max_per=6,
                                      shapes=["random", "clusters", "sparse", "nested"]))
     cont = cs["continuum"]
     have = {u[0] for u in cont["units"]}
@@ -134,6 +140,13 @@ def gamma_cases(draw):
     cs["n_samples"] = draw(st.integers(2, 8))
     cs["precision"] = draw(st.sampled_from([None, None, 0.3, 0.5]))
     cs["seed"] = draw(st.integers(0, 2 ** 31 - 1))
+    names = sorted(cont["annotators"])
+    if draw(st.booleans()):
+        k = draw(st.integers(2, len(names)))
+        cs["ground_truth"] = sorted(draw(st.permutations(names))[:k])
+        cs["gt_container"] = draw(st.sampled_from(["list", "set", "frozenset", "reversed"]))
+    else:
+        cs["ground_truth"] = None
     return cs
 
 
@@ -153,6 +166,14 @@ def schedule_cases(draw):
 @st.composite
 def hashseed_cases(draw):
     cases = draw(st.lists(gamma_cases(), min_size=4, max_size=6))
+    # hash-seed sensitive ingredients are forced into half of the batch: an unordered container of annotator names
+    # handed to the shuffle sampler (which picks annotators by position)
+    for i, cs in enumerate(cases):
+        if i % 2 == 0:
+            names = sorted(cs["continuum"]["annotators"])
+            cs["ground_truth"] = names
+            cs["gt_container"] = "set" if i % 4 == 0 else "frozenset"
+            cs["sampler"] = "shuffle-int" if i % 4 == 0 else "shuffle-float"
     seeds = draw(st.lists(st.integers(1, 2 ** 31 - 1), min_size=3, max_size=3, unique=True))
     return {"cases": cases, "hashseeds": seeds}
 
